@@ -60,7 +60,7 @@ def newick_of(spec, num=None):
     def f(n):
         s = ("(" + ",".join(f(c) for c in n[3]) + ")") if n[3] else ""
         if not n[3] and n[0] is not None:
-            s += num[n[0]] if num else n[0]
+            s += num.get(n[0], n[0]) if num else n[0]
         return s
     return f(spec) + ";"
 
@@ -210,7 +210,12 @@ def _nexus(d, colls, mats, doc):
                 num = dict((l, str(i + 1)) for i, l in enumerate(tl))
                 out.append("  TRANSLATE " + ", ".join("%s %s" % (num[l], l) for l in tl) + ";")
             for i, s in enumerate(specs):
-                out.append("  TREE t%d = [&R] %s" % (i, newick_of(s, num)))
+                use = num
+                if num and d.get("translate_mixed") and i % 2 == 1:
+                    # legal and common in hand-edited files: a taxon of the TRANSLATE table written by its full label
+                    # (the unchanged library registered such a taxon a second time when the block has no TAXA block)
+                    use = dict(list(num.items())[1:])
+                out.append("  TREE t%d = [&R] %s" % (i, newick_of(s, use)))
             out += ["END;", ""]
     return "\n".join(out)
 
